@@ -123,6 +123,10 @@ private:
             }
         }
 
+        // Restore the shift given at construction: the operator belongs to the user,
+        // and a later compute() on this solver must iterate with the original shift
+        m_op.set_shift(m_sigmar, m_sigmai);
+
         Base::sort_ritzpair(sort_rule);
     }
 
